@@ -145,6 +145,80 @@ theorem heightsOK_append_one {h : Int} {rs : List Rec} {u : Nat} (h0 : 0 ≤ h) 
   rw [List.all_append, hh]
   simp [h0]
 
+theorem chk_ok {i : Int} {d : Dec} (h : Dec.chk i = .ok d) : d.i = i := by
+  unfold Dec.chk at h
+  split at h
+  · cases h; rfl
+  · cases h
+
+theorem leftFromUnits_ok {units w left : Nat} (hw : w ≤ units) (h : leftFromUnits units w = .ok left) :
+    left = units - w := by
+  unfold leftFromUnits decOfNat at h
+  obtain ⟨uF, h1, h⟩ := bind_ok h
+  obtain ⟨wF, h2, h⟩ := bind_ok h
+  obtain ⟨d, h3, h⟩ := bind_ok h
+  have e1 := chk_ok h1
+  have e2 := chk_ok h2
+  unfold Dec.sub at h3
+  have e3 := chk_ok h3
+  rw [e1, e2] at e3
+  have hP : Dec.P = 1000000000000000000 := by decide
+  have hd : d.i = (((units - w) * Dec.P : Nat) : Int) := by
+    rw [e3, hP]; omega
+  unfold Uint.ofInt Dec.roundInt Dec.chopRound at h
+  rw [hd] at h
+  have hnn : ¬ ((((units - w) * Dec.P : Nat) : Int) < 0) := by omega
+  simp only [hnn, if_false, Int.natAbs_natCast] at h
+  have hq : Dec.chopRoundNat ((units - w) * Dec.P) = units - w := by
+    unfold Dec.chopRoundNat Dec.half
+    simp only [hP]
+    have : (units - w) * 1000000000000000000 % 1000000000000000000 = 0 := Nat.mul_mod_left _ _
+    have h2 : (units - w) * 1000000000000000000 / 1000000000000000000 = units - w := Nat.mul_div_cancel _ (by omega)
+    simp [this, h2]
+  rw [hq] at h
+  have hnn2 : ¬ (((units - w : Nat) : Int) < 0) := by omega
+  simp only [hnn2, if_false, Int.toNat_natCast] at h
+  unfold Uint.chk at h
+  split at h
+  · cases h; rfl
+  · cases h
+
+/-- `MsgRemoveLiquidityUnits` burns exactly `WithdrawUnits` -/
+theorem removeUnitsH_ok_exact {L C : Nat} {h : Int} {s : Option LP} {w : Nat} {o : Option LP}
+    (hok : removeUnitsH L C h s w = .ok o) :
+    ∃ lp, s = some lp ∧ w ≤ lp.units ∧ 0 < w ∧
+      removeCore L h lp.units (prune L C h lp.unlocks) (lp.units - w) = .ok o := by
+  unfold removeUnitsH at hok
+  split at hok
+  · cases hok
+  · rename_i hw0
+    cases s with
+    | none => cases hok
+    | some lp =>
+      simp only [removeUnitsLP] at hok
+      split at hok
+      · cases hok
+      · rename_i hgt
+        cases hl : leftFromUnits lp.units w with
+        | error e => rw [hl] at hok; simp only [liftP] at hok; cases hok
+        | ok left =>
+          rw [hl] at hok
+          simp only [liftP] at hok
+          have := leftFromUnits_ok (by omega) hl
+          subst this
+          exact ⟨lp, rfl, by omega, by omega, hok⟩
+
+/-- lingering zero-unit records never count: every handler looks at the stored list only through
+    `PruneUnlockRecords`, which drops them -/
+theorem prune_filter_nonzero (L C : Nat) (h : Int) (rs : List Rec) :
+    prune L C h (rs.filter nonzero) = prune L C h rs := by
+  unfold prune
+  rw [List.filter_filter]
+  congr 1
+  funext r
+  simp only [keepRec, nonzero]
+  cases expiredGo L C h r <;> simp
+
 /-! ### step inversions -/
 theorem step_removeUnits_ok {s s' : St} {h : Int} {k : String} {w : Nat}
     (hok : step s h (.removeUnits k w) = (s', .ok)) :
